@@ -166,3 +166,20 @@ macro_rules! impl_try_from_primitive_to_newtype {
         }
     };
 }
+
+/// Creates a `TryFrom` trait implementation from a signed primitive type, whose non-negative value
+/// range fits into the newtype, to a newtype. Negative values are rejected.
+macro_rules! impl_try_from_signed_primitive_to_newtype {
+    ($from: ty, $into: ty) => {
+        impl core::convert::TryFrom<$from> for $into {
+            type Error = $crate::TryFromGreaterError;
+
+            fn try_from(value: $from) -> Result<Self, Self::Error> {
+                if value < 0 {
+                    return Err($crate::TryFromGreaterError(()));
+                }
+                Ok(Self(value as _))
+            }
+        }
+    };
+}
